@@ -122,6 +122,7 @@ class ResidualJacobian(Obligation):
         self.functions = [cls.F, cls.F_prime, cls.F_prime_inv, cls.determinant]
         self.bounds = 'state, initial state (u0<0, rho0>0, P0) and EOS constants symbolic; symmetry fixed per obligation'
         self.max_paths = 120
+        self.timeout_s = 25
         self.extra_shim = {'print': H.quiet_print}
 
     def build(self, mk):
